@@ -5,7 +5,7 @@ from common import *
 def spec_line(n, deps, listing):
     return "%d;%s;%s" % (n, ";".join(",".join(str(d) for d in deps[i]) for i in range(n)), ",".join(str(x) for x in listing))
 
-def run_daemon(impl, n, deps, listing, extra_dep=None, anti=None):
+def run_daemon(impl, n, deps, listing, extra_dep=None, anti=None, backends=()):
     d = Path(tempfile.mkdtemp(dir=str(BUILD / "tmp"), prefix="m"))
     try:
         log = d / "stub.log"
@@ -17,6 +17,7 @@ def run_daemon(impl, n, deps, listing, extra_dep=None, anti=None):
             if extra_dep and extra_dep[0] == m: ds.append(extra_dep[1])
             env["STUBDEPS_m%d" % m] = ",".join(ds)
             if anti and anti[m]: env["STUBANTI_m%d" % m] = ",".join("m%d" % x for x in anti[m])
+            if m in backends: env["STUBBACKEND_m%d" % m] = "1"
         try:
             p = subprocess.run(["timeout", "-s", "KILL", "30", str(impl / "iauthd-c"), "-n", "-k", "-f", str(conf)], input=b"", stdout=subprocess.PIPE, stderr=subprocess.PIPE, env=env, cwd=str(d), timeout=60)
         except subprocess.TimeoutExpired:
@@ -156,14 +157,19 @@ def run(chk):
                 if r_ < 0.3: deps[order[i]].append(order[j])            # order[i] depends on order[j]
                 elif r_ < 0.55: anti[order[j]].append(order[i])          # order[j] is a back end for order[i]: order[i] depends on order[j]
         listing = rng.sample(range(n), rng.randrange(1, n + 1))
-        agraphs.append((n, deps, anti, listing))
+        bks = tuple(sorted(m for m in range(n) if rng.random() < 0.3)) if _ % 2 else ()
+        agraphs.append((n, deps, anti, listing, bks))
     # the shape that needs it: a root that sorts first pulls in the dependent, the back end sorts between them
-    agraphs.append((3, [[2], [], []], [[], [2], []], [0, 1]))
-    agraphs.append((3, [[2], [], []], [[], [2], []], [1, 0]))
-    ares = pmap(lambda g: run_daemon(impl, g[0], g[1], g[3], anti=g[2]), agraphs)
-    aspec = lambda n, deps, anti, listing: "A;%d;%s;%s;%s" % (n, ";".join(",".join(str(d) for d in deps[i]) for i in range(n)), ";".join(",".join(str(d) for d in anti[i]) for i in range(n)), ",".join(str(x) for x in listing))
+    agraphs.append((3, [[2], [], []], [[], [2], []], [0, 1], ()))
+    agraphs.append((3, [[2], [], []], [[], [2], []], [1, 0], ()))
+    # backends of the core (module_is_backend): unloaded after the ordinary modules, but still before what THEY depend on (D29)
+    agraphs.append((2, [[], [0]], [[], []], [1], (1,)))
+    agraphs.append((3, [[], [0], [1]], [[], [], []], [2], (1,)))
+    agraphs.append((4, [[1], [], [], []], [[], [], [], []], [0, 3], (1, 3)))
+    ares = pmap(lambda g: run_daemon(impl, g[0], g[1], g[3], anti=g[2], backends=g[4]), agraphs)
+    aspec = lambda n, deps, anti, listing, bks=(): "A;%d;%s;%s;%s" % (n, ";".join(",".join(str(d) for d in deps[i]) for i in range(n)), ";".join(",".join(str(d) for d in anti[i]) for i in range(n)), ",".join(str(x) for x in listing))
     amodel = subprocess.run([str(drv)], input=("\n".join(aspec(*g) for g in agraphs) + "\n").encode(), stdout=subprocess.PIPE, timeout=600).stdout.decode().split("\n")[:-1]
-    for (n, deps, anti, listing), (rc, evs, out), aml in zip(agraphs, ares, amodel + [""] * len(agraphs)):
+    for (n, deps, anti, listing, bks), (rc, evs, out), aml in zip(agraphs, ares, amodel + [""] * len(agraphs)):
         if len(chk.violations) >= 4: break
         chk.cov["evaluations"] += 1; chk.hist("graphs with back-end (antidepends) edges")
         loaded = []; todo = list(listing)
@@ -186,11 +192,29 @@ def run(chk):
                         if not evs.index("DT%d" % m) < evs.index("DT%d" % d): why = why or "destructor of m%d ran after that of its dependency m%d" % (m, d)
                     for x in anti[m]:
                         if not evs.index("DT%d" % x) < evs.index("DT%d" % m): why = why or "back end m%d (declared with module_antidepends for m%d) was destroyed before m%d" % (m, x, x)
+        if why is None and bks:
+            # what the flag is for: an ordinary module that no backend depends on (directly or not) goes before every backend
+            comb = {m: set(deps[m]) | {b for b in range(n) if m in anti[b]} for m in range(n)}
+            def reach_(b):
+                seen = set(); todo = [b]
+                while todo:
+                    x = todo.pop()
+                    for y in comb[x]:
+                        if y not in seen: seen.add(y); todo.append(y)
+                return seen
+            kept = set()
+            for b in bks:
+                if b in loaded: kept |= reach_(b)
+            for b in bks:
+                if b not in loaded: continue
+                for x in loaded:
+                    if x not in bks and x not in kept and not evs.index("DT%d" % x) < evs.index("DT%d" % b):
+                        why = why or "backend m%d was destroyed before the ordinary module m%d, which no backend depends on" % (b, x)
         afound = True
-        if why is None and not ((aml == "ABORT" and rc != 0) or (rc == 0 and aml.split(" ") == evs)):
+        if why is None and not bks and not ((aml == "ABORT" and rc != 0) or (rc == 0 and aml.split(" ") == evs)):
             why = "module.c and the Coq loader model with back-end declarations (ModAnti.run2) disagree: implementation (exit %s) %s, model %s" % (rc, " ".join(evs), aml); afound = False
         if why:
-            chk.violation("modules with back-end declarations: depends %s, back end for %s (listed: %s): %s" % ({("m%d" % i): ["m%d" % d for d in deps[i]] for i in range(n)}, {("m%d" % i): ["m%d" % d for d in anti[i]] for i in range(n) if anti[i]}, ["m%d" % x for x in listing], why),
+            chk.violation("modules with back-end declarations: depends %s, back end for %s, backends of the core %s (listed: %s): %s" % ({("m%d" % i): ["m%d" % d for d in deps[i]] for i in range(n)}, {("m%d" % i): ["m%d" % d for d in anti[i]] for i in range(n) if anti[i]}, ["m%d" % b for b in bks], ["m%d" % x for x in listing], why),
                           "depends: %s\nantidepends: %s\nconfiguration lists: %s\nevent log of the daemon (exit %s): %s\noutput:\n%s" % (deps, anti, listing, rc, " ".join(evs), out), "mod:anti:" + why[:30], found_input=afound)
             continue
         chk.cov["traces_validated_against_impl"] += 1
